@@ -49,10 +49,10 @@ void Block::runNodeREPL(Node *node, PSC::Context &ctx) {
         } case PSC::DataType::POINTER: {
             auto &resPtr = result->get<PSC::Pointer>();
 
-            const PSC::Context *ptrCtx = resPtr.getCtx();
+            unsigned long ptrCtxId = resPtr.getCtxId();
             PSC::Context *tempCtx = &ctx;
             bool valid = true;
-            while (valid && tempCtx != ptrCtx) {
+            while (valid && tempCtx->id != ptrCtxId) {
                 tempCtx = tempCtx->getParent();
                 if (tempCtx == nullptr) valid = false;
             }
